@@ -227,6 +227,15 @@ class Base:
     def prepare(self, ver, idc, tag):
         import h5py
         shutil.copyfile(self.path, self.scratch)
+        try:
+            with h5py.File(self.scratch, "r+"):
+                pass
+        except OSError:
+            # something in this process still holds the previous scratch file open (a refused open that did not
+            # let go of its handle): carry on under a new name, the lattice point itself is unaffected
+            self.nscratch = getattr(self, "nscratch", 0) + 1
+            self.scratch = os.path.join(self.dir, "scratch-%d.nix" % self.nscratch)
+            shutil.copyfile(self.path, self.scratch)
         with h5py.File(self.scratch, "r+") as h:
             del h.attrs["version"]
             if ver is not None:
@@ -342,6 +351,35 @@ def run_lattice(case, ctx, base):
             ctx.violation("%s/refused-open-changed-file/%s" % (kb, reason), case, {"exc": excname})
         if want:
             ctx.violation("%s/refused-but-must-open/%s" % (kb, reason), case, {"exc": excname})
+        if mode == "a" and oracle(ver, "r", idc, tag, lib)[0]:
+            # the refused read-write attempt must leave nothing behind in the process: a read-only session on
+            # the same path right afterwards is still read-only
+            fr = None
+            try:
+                fr = nixio.File.open(path, nixio.FileMode.ReadOnly)
+            except Exception as exc:  # noqa
+                ctx.violation("%s/read-only-open-after-refused-read-write/raised" % kb, case, {"exc": type(exc).__name__})
+            if fr is not None:
+                classes.append("read-only-session-after-refused-read-write")
+                mutated = []
+                for label, fn in (("create_block", lambda: fr.create_block("c11-after-refusal", "t")),
+                                  ("create_section", lambda: fr.create_section("c11-after-refusal", "t")),
+                                  ("force_updated_at", lambda: fr.force_updated_at(12345))):
+                    try:
+                        fn()
+                        mutated.append(label)
+                    except Exception:  # noqa
+                        pass
+                try:
+                    fr.close()
+                except Exception:  # noqa
+                    pass
+                gc.collect()
+                if mutated:
+                    ctx.violation("%s/read-only-after-refused-read-write/mutating-call-accepted" % kb, case,
+                                  {"calls": mutated})
+                if sha(path) != before:
+                    ctx.violation("%s/read-only-after-refused-read-write/bytes-changed" % kb, case, {})
     elif mode == "w":
         check_fresh(ctx, case, kb, path, f, base.old_id if idc == "valid" else base.id_value(idc), lib)
     elif not want:
